@@ -1,5 +1,6 @@
 """C13 — extension-header chains; unknown mandatory extensions cause a drop (claimed in part)."""
 from framework import *
+FLOOR_R1 = 10
 from rules import c06, c09, c03
 
 EXT = 'header_extension::Extension'
@@ -17,7 +18,7 @@ def run(ck):
     # ------------------------------------------------------------------ R1 constructor contract
     a = ck.analyse(EXT + '::new', {'kslots': 32})
     n = ck.count_obligations(a.obligations(), 'C13.R1')
-    ck.rule('C13.R1 panic obligations of Extension::new (unreachable!, expect)', n, 2)
+    ck.panic_rule('C13.R1 panic obligations of Extension::new (unreachable!, expect)', n, [a], FLOOR_R1)
     idv = a.args[0][1]
     dlen = a.args[1][3]
     i_data = field_index(f, EXT, 'data')
@@ -72,13 +73,23 @@ def run(ck):
         for v, fs in (ret_alts(rv) or []):
             lo, hi = w.store.bounds(hv)
             if v == 0:
-                if lo is not None and lo == hi and fs[0][0] == 'int' and fs[0][1].is_const():
-                    seen[lo] = fs[0][1].const
-                else:
-                    ck.finding('C13.R2', h.key, 'table-shape', 'optionnal_extension_data_size_from_hlen: an Ok return is not a single (h_len, size) row')
+                # whatever the shape (one arm per row, a range arm with arithmetic, a table lookup): for every H-LEN value that
+                # can reach this return, the size returned for that value is decided by the store
+                if lo is None or hi is None or hi - lo > 255 or fs[0][0] != 'int':
+                    ck.finding('C13.R2', h.key, 'table-shape', 'optionnal_extension_data_size_from_hlen: an Ok return does not bound its H-LEN argument')
+                    continue
+                for x in range(lo, hi + 1):
+                    if not w.store.satisfiable_with(le(hv, Lin.c(x)), le(Lin.c(x), hv)) or known_ne(w, hv, x):
+                        continue
+                    slo, shi = w.store.add_eq(hv, Lin.c(x)).bounds(fs[0][1])
+                    if slo is not None and slo == shi and x not in seen:
+                        seen[x] = slo
+                    elif seen.get(x) != slo or slo != shi:
+                        seen[x] = None
+                        ck.finding('C13.R2', h.key, f"table-shape:{x}", f"optionnal_extension_data_size_from_hlen({x}): the returned size is not a single value")
             else:
                 for x in HLEN_SPEC:
-                    if w.store.satisfiable_with(le(hv, Lin.c(x)), le(Lin.c(x), hv)):
+                    if w.store.satisfiable_with(le(hv, Lin.c(x)), le(Lin.c(x), hv)) and not known_ne(w, hv, x):
                         ck.finding('C13.R2', h.key, f"table-missing:{x}", f"optionnal_extension_data_size_from_hlen({x}) can return Err")
     ck.obligations += 5
     for x, s in HLEN_SPEC.items():
@@ -216,6 +227,8 @@ def run(ck):
         print('GAPS', holder.get('gaps'))
     ck.rule('C13.R6 Ok returns of the extension walker', n6, 1)
     ck.rule('C13.R6 windows of the extension area read by the walker', holder.get('n', 0), 3)
+    # ------------------------------------------------------------------ R8 chains of one, two and three extensions, exactly
+    bounded_chain_rules(ck)
     # ------------------------------------------------------------------ R7 bundled managers
     sm = ck.analyse('<header_extension::SimpleMandatoryExtensionHeaderManager as header_extension::MandatoryHeaderExtensionManager>::is_mandatory_header_id_known', {'kslots': 8})
     for w, rv in sm.rets:
@@ -233,14 +246,17 @@ def run(ck):
                         ck.finding('C13.R7', sg.key, f"signalisation-unknown:{kid:#x}", f"the signalisation manager does not know {kid:#06x}")
             elif x == fin:
                 lo, hi = w.store.bounds(idp)
-                if lo == hi and lo in (0x81, 0x82) and pl[0] == ('int', Lin.c(0)):
-                    known.add(lo)
+                ids = [k_ for k_ in range(lo, hi + 1) if not known_ne(w, idp, k_)] if lo is not None and hi is not None and hi - lo < 64 else None
+                if ids and all(k_ in (0x81, 0x82) for k_ in ids) and pl[0] == ('int', Lin.c(0)):
+                    known.update(ids)
                 else:
                     ck.finding('C13.R7', sg.key, 'signalisation-final', f"the signalisation manager answers Final for ids {lo}..{hi} / size {pl[0]}")
             else:
                 ck.finding('C13.R7', sg.key, 'signalisation-nonfinal', 'the signalisation manager answers NonFinal')
     ck.rule('C13.R7 ids known by the signalisation manager', len(known), 2)
-    ck.assumptions += ['NOT decided (not claimed): equality of the recovered extension list for every chain and fragmentation point — it needs the relational loop invariant between the running offset and the total extension length; the offsets of the extension area written by encap_ext are declined',
+    ck.assumptions += ['chains of ANY length: the bytes written by encap_ext form gap-free runs (adjacent writes coalesce, overlaps are reported at the write) and the walker reads contiguously (R6); that the run ends at the returned length, and that no write leaves the buffer, relates two loops over the extension list - decided exactly for chains of 1, 2 and 3 extensions (R8: both loops unrolled, one symbolic data length per extension), declined and listed beyond that',
+                       'R8 takes Extension::len(e) = data length of e + 2 as the definition of the per-extension measure; R2 checks on the same run that the function has exactly that table',
+                       'equality of the recovered extension list follows on paper from R8 (sender layout for short chains), R6 (receiver reads the same windows contiguously), R1/R2 (one H-LEN table on both sides) and, for mandatory extensions, the manager announcing the size that was sent (assumption on the user-supplied manager)',
                        'receivers with partially knowing managers are covered only through R5 (Unknown at any point of the chain drops the packet)']
     return ck.finish(
         level='other',
@@ -248,15 +264,172 @@ def run(ck):
                      'ids, data length = H-LEN table; no reachable panic); (R2) one H-LEN table in the size function, Extension::len and the standard; '
                      '(R3) GSE length / returned length / header fields of encap_ext as in C06; (R4) encap_ext builds a packet with the final-mandatory '
                      'flag only when protocol type < 0x100 equals the last extension id, otherwise protocol type >= 0x600; (R5) when the manager answers '
-                     'Unknown decap returns ErrorUnkownMandatoryHeader consuming exactly the packet before any storage is taken; (R7) tables of the '
-                     'two bundled managers.'),
+                     'Unknown decap returns ErrorUnkownMandatoryHeader consuming exactly the packet before any storage is taken; (R6) the receiver reads the '
+                     'extension area as contiguous windows and reports their total; (R7) tables of the two bundled managers; (R8) for chains of 1, 2 and 3 '
+                     'extensions, with one symbolic data length per extension: no panic and nothing declined in encap_ext, the bytes written tile [0, returned '
+                     'length) exactly, and every id, data block, the displaced protocol type and the PDU sit at the offsets the standard gives.'),
         trusted=['analysis/stdsum.py'])
+
+
+def bounded_chain_rules(ck, ns=(1, 2, 3)):
+    """encap_ext re-analysed with the extension list pinned to n = 1, 2, 3 elements: both loops over the list unroll, every
+    extension keeps a symbolic data length (a *measure* of the element: `Extension::len` is data length + 2 by R2, and a
+    match on the data variant pins the measure to that variant's payload length), so that nothing has to be declined:
+    no panic, the bytes written tile [0, returned length) exactly, in every world.  The general analysis (any n) shows the
+    same facts up to the relation between the two loops; this one closes that relation for short chains."""
+    f = ck.facts
+    i_data = field_index(f, EXT, 'data')
+
+    def ext_len(I, w, frame, site, args):
+        r = args[0]
+        if r[0] != 'ref':
+            return None
+        cell = r[1]
+        dv = I.read(w, cell.ext(('f', i_data)))
+        if dv[0] == 'enum' and len(dv[1]) == 1:
+            return None                      # variant known on this path: interpret the body
+        key = ('dl', cell.root, cell.path)
+        at = ATOMS.by_key.get(key)
+        if at is None:
+            at = ATOMS.fresh(f"datalen({w.name_of(cell.root)}{''.join('[' + e[1].pretty() + ']' for e in cell.path if e[0] == 'i')})", 0, 1 << 40, defn=key, key=key)
+        return [(w, ('int', Lin.atom(at) + 2))]
+
+    def on_refine(I, w, loc, new):
+        if not loc.path or loc.path[-1] != ('f', i_data) or len(new[1]) != 1:
+            return
+        at = ATOMS.by_key.get(('dl', loc.root, loc.path[:-1]))
+        if at is None:
+            return
+        var, fs = new[1][0]
+        if not fs:
+            n = Lin.c(0)
+        else:
+            pv = I.read(w, loc.ext(('d', var), ('f', 0)))       # materialises the payload in place (its identity is kept)
+            if pv[0] == 'arr':
+                n = Lin.c(pv[1])
+            elif pv[0] == 'vec':
+                n = I.seq_len(w, pv[1])
+            else:
+                return
+        w.store = w.store.add_eq(Lin.atom(at), n)
+
+    nret = nob = nlay = 0
+    for n in ns:
+        def pin(I, w, args, body, _n=n):
+            ev = args[param_index(body, 'extensions') - 1]
+            if ev[0] != 'vec':
+                raise Tooling('anchor lost: encap_ext does not take the extension list by value')
+            v = w.mem[ev[1]]
+            w.store = w.store.add_eq(v[1], Lin.c(_n))
+            w.mem[ev[1]] = ('seq', Lin.c(_n)) + tuple(v[2:])
+        a = analyse_writer(ck, ENC + 'encap_ext', tag=f"c13-chain{n}", extra=dict(c09.ENCCFG, call_override={EXT + '::len': ext_len}, refine_hook=on_refine), premise=pin)
+        seen = set()
+        for r in a.obligations():
+            d = r.data
+            ck.obligations += 1
+            nob += 1
+            if d['ok']:
+                ck.discharged += 1
+                continue
+            key = f"chain{n}|{d['okind']}|{d['desc']}"
+            if key in seen:
+                continue
+            seen.add(key)
+            ck.finding('C13.R8', r.site[0], key, f"encap_ext with {n} extension(s): cannot show `{d['desc']}` ({d['okind']})" + (' [declined in the general analysis]' if d.get('declined') else ''), r.site,
+                       {'needs': d.get('needs'), 'state': d.get('state')})
+        for r in a.events('write_overlap'):
+            ck.finding('C13.R8', ENC + 'encap_ext', f"chain{n}|overlap", f"encap_ext with {n} extension(s): a write is neither adjacent to nor disjoint from an earlier one", r.site)
+        # layout of the extension area (ETSI TS 102 606, 4.2.3): [header][frag id, total length]? [id 0][label][data 0][id 1][data 1]..
+        # [data n-1][protocol type unless the last extension is the final mandatory one][PDU]
+        env, rows = writer_rows(ck, a, 'encap_ext')
+        ext_arg = a.arg('extensions')
+        i_id = field_index(f, EXT, 'id')
+        for row in rows:
+            W, part = row['W'], row['part']
+            if part is None:
+                continue
+            A = 2 + (3 if part[0] == 'FirstFragPkt' else 0)
+            L = LABEL_LEN[part[1]]
+            dls = []
+            for k in range(n):
+                at = ATOMS.by_key.get(('dl', ext_arg[1], (('i', Lin.c(k)),)))
+                dls.append(Lin.atom(at) if at is not None else None)
+            if any(x is None for x in dls):
+                ck.finding('C13.R8', ENC + 'encap_ext', f"chain{n}|measure", f"encap_ext with {n} extension(s): the length of an extension is not taken through Extension::len")
+                break
+
+            def before(k):
+                t = Lin.c(0)
+                for j in range(k):
+                    t = t + dls[j] + 2
+                return t
+            src = row['raw']
+            want = what = None
+            for k in range(n):
+                cell = Loc(ext_arg[1], (('i', Lin.c(k)),))
+                idv = a.I.read(W, cell.ext(('f', i_id)))
+                if src[0] == 'arr' and src[1][0] == 'be' and src[1][2] == 2 and idv[0] == 'int' and src[1][1] == idv[1]:
+                    want, wl, what = (Lin.c(A) if k == 0 else before(k) + (A + L)), Lin.c(2), f"id of extension {k}"
+                    break
+                sloc = src[4] if src[0] == 'arr' and len(src) > 4 else None
+                if isinstance(sloc, Loc) and sloc.root == ext_arg[1] and sloc.path[:2] == (('i', Lin.c(k)), ('f', i_data)):
+                    want, wl, what = before(k) + (A + 2 + L), dls[k], f"data of extension {k}"
+                    break
+                if src[0] == 'seq':
+                    dv = a.I.read(W, cell.ext(('f', i_data)))
+                    pv = dv[1][0][1][0] if dv[0] == 'enum' and len(dv[1]) == 1 and dv[1][0][1] else None
+                    if pv is not None and pv[0] == 'vec' and pv[1] == src[1].root and not src[1].path:
+                        want, wl, what = before(k) + (A + 2 + L), dls[k], f"data of extension {k}"
+                        break
+            if want is None and row['src'][0] in ('ptype', 'pdu'):
+                fm = W.store.entails(lt(env['ptype'], Lin.c(0x100)))
+                nf = W.store.entails(le(Lin.c(0x100), env['ptype']))
+                if row['src'][0] == 'ptype' and nf:
+                    want, wl, what = before(n) + (A + L), Lin.c(2), 'protocol type after the chain'
+                elif row['src'][0] == 'pdu' and (fm or nf):
+                    want, wl, what = before(n) + (A + L + (2 if nf else 0)), None, 'PDU after the chain'
+            if want is None:
+                continue
+            nlay += 1
+            ck.obligations += 1
+            if W.store.entails_eq(row['start'], want) and (wl is None or W.store.entails_eq(row['len'], wl)):
+                ck.discharged += 1
+            else:
+                ck.finding('C13.R8', ENC + 'encap_ext', f"chain{n}|layout|{part[0]}|{what}", f"encap_ext with {n} extension(s) ({part[0]}, {part[1]}): {what} written at [{row['start'].pretty()}, +{row['len'].pretty()}), the standard places it at {want.pretty()}" + (f" with length {wl.pretty()}" if wl is not None else ''), row['site'])
+        for w, rv in a.rets:
+            for v, fs in (ret_alts(rv) or []):
+                if v != 0:
+                    continue
+                nret += 1
+                ck.obligations += 1
+                st = fs[0]
+                rlen = st[1][0][1][0] if st[0] == 'enum' and len(st[1]) == 1 and st[1][0][1] and st[1][0][1][0][0] == 'int' else None
+                wr = ghost(w, 'writes')
+                ivs = [(x[1][0][1], x[1][1][1]) for x in wr[1]] if wr is not None and wr[0] == 'agg' else None
+                if rlen is None or ivs is None:
+                    ck.finding('C13.R8', ENC + 'encap_ext', f"chain{n}|shape", f"encap_ext with {n} extension(s): returned length or written intervals not recognisable")
+                    continue
+                total = Lin.c(0)
+                ok = True
+                for i, (s1, l1) in enumerate(ivs):
+                    total = total + l1
+                    for (s2, l2) in ivs[i + 1:]:
+                        if not (w.store.entails(le(s1 + l1, s2)) or w.store.entails(le(s2 + l2, s1))):
+                            ok = False
+                lo = [s1 for s1, _ in ivs if w.store.entails_eq(s1, Lin.c(0))]
+                if ok and lo and w.store.entails_eq(total, rlen[1]):
+                    ck.discharged += 1
+                else:
+                    ck.finding('C13.R8', ENC + 'encap_ext', f"chain{n}|extent", f"encap_ext with {n} extension(s): the bytes written ({' + '.join(f'[{a_.pretty()}, +{b_.pretty()})' for a_, b_ in ivs)}) are not exactly [0, returned length {rlen[1].pretty()})")
+    ck.rule('C13.R8 Ok returns of encap_ext with 1, 2, 3 extensions (bytes written = [0, returned length))', nret, 6)
+    ck.rule('C13.R8 obligations of encap_ext with 1, 2, 3 extensions (none declined)', nob, 300)
+    ck.rule('C13.R8 writes of the extension area placed (ids, data, protocol type, PDU; chains of 1, 2, 3)', nlay, 60)
 
 
 def size_may_match(w, idv, dlen):
     """can data length equal the H-LEN size of the id on this path?"""
     for hl, size in HLEN_SPEC.items():
-        if w.store.satisfiable_with(le(Lin.c(256 * hl), idv), lt(idv, Lin.c(256 * (hl + 1))), le(dlen, Lin.c(size)), le(Lin.c(size), dlen)):
+        if feasible_with(w, le(Lin.c(256 * hl), idv), lt(idv, Lin.c(256 * (hl + 1))), le(dlen, Lin.c(size)), le(Lin.c(size), dlen)):
             if not known_ne(w, dlen, size):
                 return True
     return False
